@@ -503,9 +503,16 @@ def check_tool_paths(ctx, tool):
             adds = [e for e in p.events if e.kind == 'call' and method_call(
                 e.node) and method_call(e.node)[1] in (
                     'append', 'extend', 'update', '__setitem__')]
-            stores = [e for e in p.events if e.kind == 'store']
+            stores = [e for e in p.events if e.kind in ('store', 'aug')]
             yields = [e for e in p.events if e.kind == 'yield']
-            if not adds and not stores and not yields:
+            # ... or the element is part of what is returned (the list
+            # grown by rebinding: items = items + [...])
+            elems = {s_ for s_, d_ in tfl.en.defs.items()
+                     if isinstance(d_, tuple) and d_ and d_[0] == 'elem'}
+            kept = p.outcome.kind == 'return' and p.outcome.expr is not None \
+                and any(isinstance(x, ast.Name) and x.id in elems
+                        for x in ast.walk(tfl.expand(p.outcome.expr)))
+            if not adds and not stores and not yields and not kept:
                 dropped = p
     ctx.ob('C19.TARGET', dropped is None and n > 0, ctx.where(
         flat.module, flat.node), flat.qual,
@@ -643,6 +650,27 @@ def check_lookup(ctx, tool):
                                             anc3.test.comparators[0]) == U(
                                                 n.value):
                     guarded = True
+                # ... nor can one for a name drawn from the rule set itself
+                # (for name in sorted(rules): ... rules[name])
+                if isinstance(anc3, ast.For) and any(
+                        cur3 is b for b in anc3.body) and isinstance(
+                            anc3.target, ast.Name) and U(
+                                anc3.target) == U(n.slice):
+                    it3 = anc3.iter
+                    while isinstance(it3, ast.Call) and isinstance(
+                            it3.func, ast.Name) and it3.func.id in (
+                                'sorted', 'list', 'tuple', 'reversed',
+                                'iter') and len(it3.args) == 1:
+                        it3 = it3.args[0]
+                    if isinstance(it3, ast.Call) and method_call(
+                            it3, 'keys') and not it3.args:
+                        it3 = method_call(it3)[0]
+                    stored = any(
+                        isinstance(x, ast.Name) and x.id == anc3.target.id
+                        and isinstance(x.ctx, ast.Store) and x is not
+                        anc3.target for b in anc3.body for x in ast.walk(b))
+                    if U(it3) == U(n.value) and not stored:
+                        guarded = True
                 cur3, anc3 = anc3, pm.get(anc3)
             if guarded:
                 ctx.ob('C19.LOOKUP', True, ctx.where(tool.module, n),
